@@ -29,8 +29,7 @@ func (x *Exec) atReturn(st *State, fr *Frame, res []Value, v *ssa.Return) {
 			ctx.names[n] = res[i]
 		}
 	}
-	ctx.fr = nil // post-conditions speak about parameters and results only
-	ctx.fr = fr
+	ctx.fr = nil // post-conditions speak about entry values of parameters and results only
 	for _, gs := range ct.GhostSets {
 		x.applyGhostSet(ctx, gs)
 	}
@@ -587,6 +586,7 @@ func (x *Exec) learnBounds(t *Term) {
 		if r.Op == "int" && (l.Op == "const" || l.Op == "select" || l.Op == "app") {
 			b.symLo[l], b.symHi[l] = r.Val, r.Val
 			b.bcache = map[*Term][2]*big.Int{}
+			b.known[l] = r
 		}
 	}
 }
